@@ -420,8 +420,8 @@ fn symmetric_backgrounds() -> Vec<BgSpec> {
     ]
 }
 
-const INVOLUTION_DESC: &str = "product: every DNA count matrix of width 1..=4 over the 8-row C09 menu (4680) x 5 pseudocount specs x 5 backgrounds (strand-asymmetric ones included); \
-    on each point the count, frequency, weight and scoring matrix: rc(rc(m)) == m (cells bit-for-bit, PartialEq, background, sequence count) and rc(m) == rows reversed + columns permuted by A<->T, C<->G, N<->N. \
+const INVOLUTION_DESC: &str = "product: every DNA count matrix of width 1..=4 over the 8-row C09 menu (4680) x 5 pseudocount specs x 6 backgrounds (strand-asymmetric ones included; one with a frequency of 1e-8); \
+    on each point the count, frequency, weight and scoring matrix: rc(rc(m)) == m (cells bit-for-bit, PartialEq, background, sequence count) and rc(m) == rows reversed + columns permuted by A<->T, C<->G, N<->N; plus count matrices built by from_sequences from every tuple of 1..=3 sequences of length 0 and 1. \
     one evaluation = one matrix kind of one point; non-trivial = rc changes the count matrix (so the identity function would be caught). Frequency/weight/scoring matrices of points with a 0/0 row (NaN) are skipped";
 
 const COMMUTATION_DESC: &str = "product: the same 4680 count matrices x 5 strand-symmetric pseudocount specs (0, 0.1, 1, (.1,.2,.1,.2,.3), wildcard-only) x 6 strand-symmetric backgrounds (uniform, (.125,.375,.125,.375,0), \
@@ -483,6 +483,53 @@ fn run_matrix_level(ctx: &mut Ctx, rep: &mut Report, index: &mut u64) {
         }
         if skipped_nan {
             rep.note("C10: points with a count+pseudocount row total of 0 hold NaN (0/0) frequency rows, for which equality is undefined; only their count matrix was checked");
+        }
+        // count matrices built by CountMatrix::from_sequences (their sequence count is the number of sequences, which
+        // for width 0 or wildcard-free columns is NOT derivable from the cells): every tuple of 1..=3 sequences of
+        // length 0 and 1
+        for l in 0..=1usize {
+            let words: Vec<Vec<u8>> = pm::all_words_upto(l, 5).into_iter().filter(|w| w.len() == l).collect();
+            for k in 1..=3usize {
+                let total = (words.len() as u64).pow(k as u32);
+                for t in 0..total {
+                    let idx = *index;
+                    *index += 1;
+                    if !ctx.mine(idx) {
+                        continue;
+                    }
+                    let mut r = t;
+                    let seqs: Vec<Vec<u8>> = (0..k)
+                        .map(|_| {
+                            let w = words[(r % words.len() as u64) as usize].clone();
+                            r /= words.len() as u64;
+                            w
+                        })
+                        .collect();
+                    pm::bulk(rep, "involution", 1, 1);
+                    let res = catch(|| {
+                        let enc: Vec<EncodedSequence<Dna>> = seqs.iter().map(|s| EncodedSequence::<Dna>::new(pm::to_symbols::<Dna>(s))).collect();
+                        let cm = lightmotif::pwm::CountMatrix::<Dna>::from_sequences(enc).map_err(|_| ()).expect("equal lengths");
+                        let rr = cm.reverse_complement().reverse_complement();
+                        (rr == cm, cm.sequence_count(), rr.sequence_count())
+                    });
+                    match res {
+                        Ok((eq, n0, n2)) => {
+                            if !eq || n0 != n2 {
+                                rep.violation(
+                                    "C10 involution count (from_sequences) rc(rc(m)) != m".to_string(),
+                                    format!("count matrix of {} sequence(s) of length {}: rc(rc(m)) == m says {}, sequence_count {} -> {}", k, l, eq, n0, n2),
+                                    || json!({"kind": "involution_from_sequences", "alphabet": "dna", "sequences": seqs}),
+                                );
+                            }
+                        }
+                        Err(p) => rep.violation(
+                            format!("C10 involution count (from_sequences) panic {}", panic_class(&p)),
+                            format!("from_sequences / reverse_complement panicked: {}", p),
+                            || json!({"kind": "involution_from_sequences", "alphabet": "dna", "sequences": seqs}),
+                        ),
+                    }
+                }
+            }
         }
     }
     // ---- commutation ----------------------------------------------------------------------------
@@ -1205,7 +1252,7 @@ fn run_mirror_nonfinite(ctx: &mut Ctx, rep: &mut Report, index: &mut u64) {
     let quick = ctx.quick();
     rep.space(
         "mirror_nonfinite",
-        "product: ALL DNA sequences over {A,C,T,G,N} of length 0..=5 (3906; thorough 0..=6, 19531) plus four sequences of 33, 40, 70 and 100 symbols x every scoring matrix of width 1..=3 over a 4-row menu of small-integer cells mixed with NaN, +inf and -inf cells \
+        "product: ALL DNA sequences over {A,C,T,G,N} of length 0..=5 (3906; thorough 0..=6, 19531) plus six sequences of 33, 40, 70, 100, 1024 and 2100 symbols (the last two go through the block transposition of the AVX2 striping) x every scoring matrix of width 1..=3 over a 4-row menu of small-integer cells mixed with NaN, +inf and -inf cells \
          (\"any content\"; built with ScoringMatrix::new) x {generic pipeline, dispatcher arms generic / sse2 / avx2} x {pipeline score_into, scalar ScoringMatrix::score_position} x striped-sequence layouts {configured once; configured for a wider motif first; hand-built with two spare sequence rows}. \
          Oracle: the IEEE sum of a window's cells has the same class in every summation order (NaN if a NaN cell or both infinities occur, else +inf / -inf / the exact integer sum): \
          position i of m on s and position L-M-i of rc(m) on rc(s) both equal that value (NaN matches NaN)",
@@ -1216,7 +1263,7 @@ fn run_mirror_nonfinite(ctx: &mut Ctx, rep: &mut Report, index: &mut u64) {
     let wrap = 2;
     let mut words = pm::all_words_upto(if quick { 5 } else { 6 }, 5);
     // a few sequences longer than one striped row (the layouts only differ from each other there): 33, 40, 70 and 100 symbols
-    for &l in &[33usize, 40, 70, 100] {
+    for &l in &[33usize, 40, 70, 100, 1024, 2100] {
         words.push((0..l).map(|i| if i % 11 == 10 { 4u8 } else { ((i * i + 3 * i + l) % 4) as u8 }).collect());
     }
     for (si, seq) in words.iter().enumerate() {
@@ -1411,6 +1458,20 @@ pub fn replay(_ctx: &mut Ctx, rep: &mut Report, case: &Value) {
                 .unwrap_or(prepared[0].width.max(1) - 1)
                 .max(prepared[0].width.max(1) - 1);
             mirror_row(pl, &seq, &prepared, wrap, rep, true);
+        }
+        "involution_from_sequences" => {
+            let seqs: Vec<Vec<u8>> = case["sequences"].as_array().unwrap().iter().map(pm::ranks_from_json).collect();
+            let res = catch(|| {
+                let enc: Vec<EncodedSequence<Dna>> = seqs.iter().map(|s| EncodedSequence::<Dna>::new(pm::to_symbols::<Dna>(s))).collect();
+                let cm = lightmotif::pwm::CountMatrix::<Dna>::from_sequences(enc).map_err(|_| ()).expect("equal lengths");
+                let rr = cm.reverse_complement().reverse_complement();
+                (rr == cm, cm.sequence_count(), rr.sequence_count())
+            });
+            match res {
+                Ok((eq, n0, n2)) if eq && n0 == n2 => {}
+                Ok((eq, n0, n2)) => rep.violation("C10 involution count (from_sequences) rc(rc(m)) != m".to_string(), format!("rc(rc(m)) == m says {}, sequence_count {} -> {}", eq, n0, n2), || case.clone()),
+                Err(p) => rep.violation(format!("C10 involution count (from_sequences) panic {}", panic_class(&p)), p, || case.clone()),
+            }
         }
         "mirror_nonfinite" => {
             let spec = MatSpec::from_json(&case["matrix"]);
